@@ -340,9 +340,9 @@ def main(pid, tier):
         if not neg and r.violated:
             ck.violation("RtFs model violates %s" % r.violated, {"tlc.out": r.out[-20000:]})
     ck.phase("tlc")
-    names = ["small-direct", "small-tmp", "boundary-tmp", "one-direct"]
+    names = ["small-direct", "small-tmp", "boundary-tmp", "one-direct", "one-tmp", "boundary-direct"]
     if tier == "thorough":
-        names += ["big-tmp", "big-direct", "one-tmp", "boundary-direct"]
+        names += ["big-tmp", "big-direct"]
     execs = []
     owners = []
     for name in names:
@@ -403,7 +403,7 @@ def main(pid, tier):
             jobs = []
             for i in pts:
                 es = errs.get(ref["calls"][i]["sys"], ["EIO"])
-                for e in (es if tier == "thorough" else es[:1]):
+                for e in es:
                     jobs.append((i, e))
 
             def onef(j, sc=sc, ref=ref):
